@@ -177,3 +177,35 @@ func TestC18Demo_MultiSource(t *testing.T) {
 		}
 	}
 }
+
+// Time comparisons that are not the statement's WHERE predicate: inside a
+// comment, inside an aggregate's FILTER (WHERE …), or after QUALIFY (window
+// functions are computed before it, over rows the pruning would remove).
+// (The first two were pointed out by a seeding agent on the unmodified tree.)
+func TestC18Demo_TimeComparisonOutsideTheWhereClause(t *testing.T) {
+	base := t.TempDir()
+	backend, _ := storage.NewLocalBackend(base, zerolog.Nop())
+	base = backend.GetBasePath()
+	db, err := sql.Open("duckdb", "")
+	if err != nil {
+		t.Fatal(err)
+	}
+	defer db.Close()
+	db.Exec("SET TimeZone='UTC'")
+	c18File(t, db, base, time.Date(2024, 3, 10, 5, 0, 0, 0, time.UTC), "a")
+	c18File(t, db, base, time.Date(2024, 3, 16, 5, 0, 0, 0, time.UTC), "b")
+	h := &QueryHandler{storage: backend, pruner: pruning.NewPartitionPruner(zerolog.Nop()), logger: zerolog.Nop()}
+	for _, q := range []string{
+		"SELECT host AS r FROM cpu WHERE host <> '' -- AND time >= '2024-03-16T00:00:00Z' AND time < '2024-03-17T00:00:00Z'\nORDER BY r",
+		"SELECT host AS r FROM cpu WHERE host <> '' /* AND time >= '2024-03-16T00:00:00Z' AND time < '2024-03-17T00:00:00Z' */ ORDER BY r",
+		"SELECT CAST(count(*) FILTER (WHERE time >= '2024-03-16T00:00:00Z' AND time < '2024-03-17T00:00:00Z') AS VARCHAR) || '/' || CAST(count(*) AS VARCHAR) AS r FROM cpu",
+		"SELECT host || ':' || coalesce(lag(host) OVER (ORDER BY time), '-') AS r FROM cpu WHERE host <> '' QUALIFY time >= '2024-03-16T00:00:00Z' AND time < '2024-03-17T00:00:00Z' ORDER BY r",
+	} {
+		pruned := h.convertSQLToStoragePaths(context.Background(), q)
+		unpruned := strings.Replace(q, "FROM cpu", "FROM read_parquet('"+base+"/default/cpu/**/*.parquet', union_by_name=true)", 1)
+		got, want := c18Rows(t, db, pruned), c18Rows(t, db, unpruned)
+		if !reflect.DeepEqual(got, want) {
+			t.Errorf("pruning changed the result\n  sql:      %s\n  pruned:   %v\n  unpruned: %v", q, got, want)
+		}
+	}
+}
